@@ -132,24 +132,26 @@ def isInstanceAtom : Atom → Bool
   | .none => false
   | _ => true
 
+/-- the two maps from the narrowed types of a union: an empty side is an impossible outcome -/
+def narrowResult (x : Nat) (yes no : Ty) (intersect : Bool) : TC (CMap × CMap) :=
+  if yes.isEmpty then
+    if intersect then .error (.unsupported 1) else .ok (none, some [(x, no)])
+  else if no.isEmpty then .ok (some [(x, yes)], none)
+  else .ok (some [(x, yes)], some [(x, no)])
+
 /-- maps for `isinstance(x, C)` where `x : T` -/
 def instMaps (P : Prog) (x c : Nat) (T : Ty) : TC (CMap × CMap) :=
   match T with
   | [] => .error (.stuck 10)
   | [a] =>
     if subAtom P a (.cls c) then .ok (noInfo, none)
-    else
-      let yn := instAtom P c a
-      if yn.1.isEmpty then
-        if isInstanceAtom a then .error (.unsupported 1) else .ok (none, noInfo)
-      else .ok (some [(x, yn.1)], some [(x, yn.2)])
+    else if (instAtom P c a).1.isEmpty then
+      if isInstanceAtom a then .error (.unsupported 1) else .ok (none, noInfo)
+    else .ok (some [(x, (instAtom P c a).1)], some [(x, (instAtom P c a).2)])
   | _ =>
-    let yes := unionTys P (T.map fun a => (instAtom P c a).1)
-    let no := unionTys P (T.map fun a => (instAtom P c a).2)
-    if yes.isEmpty then
-      if T.all isInstanceAtom then .error (.unsupported 1) else .ok (none, some [(x, no)])
-    else if no.isEmpty then .ok (some [(x, yes)], none)
-    else .ok (some [(x, yes)], some [(x, no)])
+    -- no item can be an instance of C: mypy tries ad-hoc intersections if every item is an Instance
+    narrowResult x (unionTys P (T.map fun a => (instAtom P c a).1)) (unionTys P (T.map fun a => (instAtom P c a).2))
+      (T.all isInstanceAtom)
 
 /-- maps for `x is None` where `x : T` -/
 def noneMaps (x : Nat) (T : Ty) : TC (CMap × CMap) :=
@@ -161,11 +163,7 @@ def noneMaps (x : Nat) (T : Ty) : TC (CMap × CMap) :=
     | .object => .ok (some [(x, [.none])], some [(x, [.object])])
     | _ => .ok (none, noInfo)
   | _ =>
-    let yes : Ty := if T.any (fun a => a == .none || a == .object) then [.none] else []
-    let no := T.filter fun a => a != .none
-    if yes.isEmpty then .ok (none, some [(x, no)])
-    else if no.isEmpty then .ok (some [(x, yes)], none)
-    else .ok (some [(x, yes)], some [(x, no)])
+    narrowResult x (if T.any (fun a => a == .none || a == .object) then [.none] else []) (T.filter fun a => a != .none) false
 
 /-! ### update_from_options -/
 
@@ -219,6 +217,14 @@ structure Ctx where
   P : Prog
   decl : List Ty
   ret : Ty
+  self : Option Nat := none      -- the class whose method is being checked (local 0 is `self`)
+
+/-- `self.f = …` inside a method *defines* `f` on the class unless it is already declared there
+    (semanal's implicit attribute definition) — outside the fragment -/
+def implicitAttrDef (C : Ctx) (o : Expr) (f : Nat) : Bool :=
+  match o, C.self with
+  | .var 0, some c => (lookupAttr C.P c f).isNone
+  | _, _ => false
 
 abbrev Recs := List (Nat × Ty)
 
@@ -413,6 +419,7 @@ def tcS : Nat → Ctx → Option Env → Stmt → TC (Option Env × Recs)
         req (subTy C.P r.ty Tx) (.type 8)
         pure (some (bind Γ x r.ty true), r.recs)
     | .setAttr o f e => do
+      req (!implicitAttrDef C o f) (.unsupported 6)
       let ro ← tcE n C Γ false false o
       let re ← tcE n C Γ false false e
       req (!ro.ty.isEmpty) (.stuck 12)
@@ -458,8 +465,12 @@ def tcS : Nat → Ctx → Option Env → Stmt → TC (Option Env × Recs)
 def tcFuel : Nat := 4096
 
 /-- a function or method body: parameters typed as declared, falling off the end only in `-> None` -/
-def tcFunc (P : Prog) (self : List Ty) (fd : FuncDef) : TC Recs := do
-  let r ← tcS tcFuel { P := P, decl := self ++ fd.params ++ fd.locals, ret := fd.ret } (some []) fd.body
+def selfTys : Option Nat → List Ty
+  | some c => [[.cls c]]
+  | none => []
+
+def tcFunc (P : Prog) (self : Option Nat) (fd : FuncDef) : TC Recs := do
+  let r ← tcS tcFuel { P := P, decl := selfTys self ++ fd.params ++ fd.locals, ret := fd.ret, self := self } (some []) fd.body
   match r.1 with
   | none => pure r.2
   | some _ => do req (fd.ret == [.none]) (.type 10); pure r.2
@@ -480,16 +491,19 @@ def tcInit (P : Prog) (c : Nat) (params : List Ty) : List (Nat × Expr) → TC R
 def overrideOk (P : Prog) (sub sup : FuncDef) : Bool :=
   argsFit P sup.params sub.params && subTy P sub.ret sup.ret
 
+def overrideCheck (P : Prog) (base : Option Nat) (m : Nat) (fd : FuncDef) : Bool :=
+  match base with
+  | none => true
+  | some b =>
+    match lookupMeth P b m with
+    | some (_, fd0) => overrideOk P fd fd0
+    | none => true
+
 def tcMethods (P : Prog) (c : Nat) (base : Option Nat) : List (Nat × FuncDef) → TC Recs
   | [] => pure []
   | (m, fd) :: r => do
-    let rs ← tcFunc P [[.cls c]] fd
-    match base with
-    | none => pure ()
-    | some b =>
-      match lookupMeth P b m with
-      | some (_, fd0) => req (overrideOk P fd fd0) (.type 11)
-      | none => pure ()
+    let rs ← tcFunc P (some c) fd
+    req (overrideCheck P base m fd) (.type 11)
     let rest ← tcMethods P c base r
     pure (rs ++ rest)
 
@@ -520,7 +534,7 @@ def tcClasses (P : Prog) : Nat → List ClassDef → TC Recs
 def tcFuncs (P : Prog) : List FuncDef → TC Recs
   | [] => pure []
   | fd :: r => do
-    let a ← tcFunc P [] fd
+    let a ← tcFunc P none fd
     let rest ← tcFuncs P r
     pure (a ++ rest)
 
